@@ -26,6 +26,13 @@ CMarkCreate == 20015
 CPop == 2
 CCreatePre == 32162
 CDeposit == 6400
+CFee == 500000
+CNewAcct == 25000
+CPc1 == 3000
+CPc2 == 60
+CPc3 == 600
+CPc4 == 15
+CPc(i) == CASE i = 1 -> CPc1 [] i = 2 -> CPc2 [] i = 3 -> CPc3 [] i = 4 -> CPc4
 CCallPre(kind, v) ==
   CASE kind = "call" -> (IF v > 0 THEN CCallV ELSE CCall0)
     [] kind = "callcode" -> (IF v > 0 THEN CCallCodeV ELSE CCallCode0)
